@@ -312,6 +312,17 @@ static void check_roundtrip(const struct lrtr_ip_addr *ip, bool full_len_sweep)
 		return;
 	}
 	CNT("c19/roundtrips");
+	/* texts of (nearly) maximal length are where an off-by-one in the length check shows: sweep all lengths */
+	if (!full_len_sweep && strlen(txt) + 3 >= (ip->ver == LRTR_IPV4 ? 15u : 39u)) {
+		char t2[80];
+
+		CNT("c19/max_length_texts_swept");
+		for (unsigned int len = 0; len <= 64; len++) {
+			rc = to_str_exact(ip, len, t2, sizeof(t2));
+			if (len >= need && rc != 0)
+				viol("C19", "C19:to_str-fails:long-text", "lrtr_ip_addr_to_str failed (rc=%d) with sufficient len=%u", rc, len);
+		}
+	}
 	/* library parses its own text back */
 	rc = parse_det(txt, &back, "to_str");
 	if (rc != 0 || !ip_same(&back, ip)) {
@@ -415,6 +426,9 @@ static void run_ip6_case(struct rng *r, long c)
 		struct lrtr_ip_addr ip;
 
 		gen_v6(r, pattern, w);
+		if (pattern == 0xff && i % 2 == 1)
+			for (int g = 0; g < 8; g++)
+				w[g] |= 0x1000; /* every group needs four hex digits: the longest possible text */
 		if (i % 8 == 7) {
 			/* embedded-IPv4 shapes: ::a.b.c.d and ::ffff:a.b.c.d */
 			memset(w, 0, sizeof(w));
